@@ -46,7 +46,7 @@ Proof.
       [exact I|]. cbn [ovals]. exact G.
 Qed.
 
-Theorem ctor_wf_rule ev st kw r : ctor ev (Some st) kw = Ok r -> e_fwd ev = 0 ->
+Theorem ctor_wf_rule ev st kw r : ctor ev (Some st) kw = Ok r -> 0 <= e_fwd ev <= 6 ->
   wf_start_kw st kw = true -> wf_rule r = true.
 Proof.
   intros H Hfwd Hw.
@@ -72,7 +72,7 @@ Proof.
     - assumption.
     - destruct (k_wkst kw) as [w|].
       + destruct (w =? 0); [reflexivity|assumption].
-      + rewrite Hfwd. reflexivity.
+      + destruct (e_fwd ev =? 0); [reflexivity|lia].
     - destruct (k_until kw) as [u|]; [|reflexivity].
       do 2 (apply andb_true_iff in H1 as [H1 ?]). rewrite H1. replace (dus u =? 0) with true by lia.
       replace (dtz u =? 0) with true by lia. reflexivity.
@@ -90,11 +90,12 @@ Qed.
 
 (* str_roundtrip with hypotheses on the arguments only *)
 Theorem str_roundtrip_args ev o st kw r :
-  ctor ev (Some st) kw = Ok r -> e_fwd ev = 0 -> wf_args kw = true -> wf_start_kw st kw = true ->
+  ctor ev (Some st) kw = Ok r -> 0 <= e_fwd ev <= 6 -> (e_fwd ev = 0 \/ r_wkst r <> 0) ->
+  wf_args kw = true -> wf_start_kw st kw = true ->
   o_forceset o = false -> o_compatible o = false -> o_ignoretz o = false -> o_unfold o = false ->
   parse_rfc ev o (to_str r) = RRule (o_cache o) r.
 Proof.
-  intros H Hfwd Ha Hw. apply (str_roundtrip ev o st kw r H Hfwd Ha). apply (ctor_wf_rule ev st kw r H Hfwd Hw).
+  intros H Hrange Hfwd Ha Hw. apply (str_roundtrip ev o st kw r H Hfwd Ha). apply (ctor_wf_rule ev st kw r H Hrange Hw).
 Qed.
 
 Example ex_wf_start_kw : wf_start_kw st_ex kw_ex = true. Proof. reflexivity. Qed.
